@@ -7,7 +7,6 @@ CONSTANTS
   Thens = {"none", "assign", "ro"}
 INVARIANT TypeOK
 INVARIANT ProjectionFaithful
-INVARIANT AbstractionSound
 INVARIANT EnvExact
 INVARIANT ScopedOpsAreLocal
 INVARIANT PopRestores
